@@ -226,6 +226,7 @@ type Exec struct {
 	pendingTyping []Val
 	pendingBound []string
 	pendingIdx   []string
+	pendingLeaf  [][3]string
 	refArrs      map[string]bool
 	curFrame *Frame
 	nExitCovers int
@@ -885,11 +886,23 @@ func (x *Exec) load(st *State, a *Addr) Val {
 	v := x.unflatten(a.T, terms)
 	// name loaded values to keep terms small, and add typing facts
 	v = x.nameVal(st, v, "ld")
+	x.assumeTyping(st, v)
 	idx := ""
 	if len(a.Idx) > 0 {
 		idx = a.Idx[0]
 	}
-	x.assumeTypingBound(st, v, x.refBound(st, a.Prefix+ls0suffix(ls)), idx)
+	if idx != "" {
+		named := x.flatten(v)
+		for i, l := range ls {
+			if !isRefLeaf(l) || strings.HasPrefix(l.sort, "(Array") {
+				continue
+			}
+			b := x.refBound(st, a.Prefix+l.suffix)
+			if b != st.alloc {
+				st.assume(implies(app("<=", idx, b), app("<=", named[i], b)))
+			}
+		}
+	}
 	return v
 }
 
